@@ -63,7 +63,7 @@ def _(c):
 
 
 # ------------------------------------------------------------------ Fetcher._update_fetch_positions
-@contract(MOD + ":Fetcher._update_fetch_positions", ["C13", "C03"])
+@contract(MOD + ":Fetcher._update_fetch_positions", ["C13", "C03", "C04"])
 def _(c):
     c.self_("Fetcher")
     c.param("assignment", Ref("Assignment"))
